@@ -253,6 +253,8 @@ def check(col: Collector, tier: str):
                        "code emitted outside its guard also changes which rows are written: the guarded loop runs (and may throw) for events the guard rejects")
     import_obligations(col, "C01.R8", "c16", lambda o: o.rule == "C16.R5" and o.detail == "-d-file-is-sole-input",
                        "rows of a file that was not asked for are rows the query does not denote")
+    import_obligations(col, "C01.R17", "c06", lambda o: o.rule in ("C06.R7", "C06.R8"),
+                       "two mentions of a collection are two loops / two reads: a remembered code value or token makes the second one an alias of the first")
     import_obligations(col, "C01.R13", "c13", lambda o: o.rule in ("C13.R2", "C13.R7") or o.detail in ("binary-template", "comparison-template-and-type", "unary-template", "operands-in-order"),
                        "the value written is the value of this C++ expression")
 
@@ -483,6 +485,8 @@ def check_pipeline(col, repo: Repo):
 
 def check_max_events(col):
     col.floor("C01.R8", 2)
+    from sa.props._tr import check_cfg_filelist
+    check_cfg_filelist(col, "C01.R8")
     for rel in ("func_adl_xAOD/template/cms/r5/analyzer_cfg.py", "func_adl_xAOD/template/cms/r7/analyzer_cfg.py"):
         p = REPO / rel
         if not p.exists():
